@@ -173,6 +173,17 @@ fn gen_cmd(args: &[String]) -> i32 {
             println!("{}", serde_json::to_string(&v).unwrap());
             0
         }
+        Some("smallbcf") if args.len() == 2 => {
+            // the base BCF file of the cli family's mutation scenarios
+            let cols: Vec<String> = ["a", "b", "c"].iter().map(|s| s.to_string()).collect();
+            let rows = [["0/1", "1/1", "0/0"], ["0/0", "0|1", "./."], ["1/1", "0/1", "1/2"]];
+            let recs: Vec<gen::Rec> = rows.iter().enumerate().map(|(i, r)| gen::Rec {
+                contig: "chr1".into(), pos: (i + 1) as u64, bad: false,
+                gt: cols.iter().cloned().zip(r.iter().map(|s| s.to_string())).collect(),
+            }).collect();
+            fs::write(&args[1], gen::own_bcf(&cols, &recs)).expect("write");
+            0
+        }
         Some("bgzf") if args.len() == 4 => {
             let data = fs::read(&args[1]).expect("read");
             fs::write(&args[2], gen::bgzf_chunks(&data, args[3].parse().expect("size"))).expect("write");
